@@ -266,7 +266,11 @@ type histProg struct {
 }
 
 func genHistory(t *tape.Tape, uniq string) histProg {
-	switch t.Pick(3, 1, 3, 3, 1, 2, 2, 2, 1, 2, 1, 3, 3, 2, 2) {
+	switch t.Pick(3, 1, 3, 3, 1, 2, 2, 2, 1, 2, 1, 3, 3, 2, 2, 3, 3) {
+	case 15:
+		return histProg{kind: "parse-abandoned", faultAt: -1, src: brokenSyntax(t, false)}
+	case 16:
+		return histProg{kind: "parse-abandoned-handled", faultAt: -1, src: handledSyntax(t)}
 	case 0:
 		return histProg{kind: "fail-at-step", faultAt: 1 + t.Intn(4),
 			src: "hx1 := S(1)\nhx2 := [S(2), hx1]\nhf := {|a| S(3); a}\nhf(S(4))\n\"done\".p\n"}
@@ -334,6 +338,49 @@ func genHistory(t *tape.Tape, uniq string) histProg {
 	}
 }
 
+// richSyntax is a valid program that takes the lexer and parser through all their modes
+// (interpolations, raw strings, symbols, char and number forms, comments, multi-line
+// chains, literals of every kind, `}` directly followed by a string, ...). It serves as a
+// probe, and - cut or corrupted at a tape-chosen place - as the source of histories whose
+// parse is abandoned in an arbitrary lexer/parser state.
+const richSyntax = "# rich syntax probe\no := {a: 1, \"b\": 2, 'c: 3}\nf := {|x, k: \"d\"| \"#{x}-#{k}\"}\nassertEq({a: 1}.a.S, \"1\")\n[f(1), f(2, k: \"e\"), {|x| x}(\"a\")].p\ns := \"pre #{o.a + 1} mid #{o['b]} post\"\ns.p\nr := `raw #{no} \"q\"`\nr.p\nm := %{1: \"x\", \"k\": [1, 2], [3]: {z: nil}}\nm.p\n[1, 2, 3]\n  |@{|i| i * 2}\n  |$(0){|acc, i| acc + i}\n  |.p\nt := (1:10:3).A\n[t, ?a, 'sym, 0x1f, 1e2, 1.5, -2, !true].p\ng := <{|i| yield i if i < 2; recur(i + 1)}>\ng.new(0).A.p\nh := m{|y| [self, y]}\n{h: h}.h(1).p\n[1, 2]@{|x| \"#{x}!\"}.p\n\"a,b\".split(sep: \",\")@uc.p\n(1 if o.a == 1 else 2).p\nnil&.nosuch.p\n{|x| x}(\"}\").p\n\"done }\" .p\n"
+
+// brokenSyntax cuts richSyntax at a tape-chosen byte or drops a stray token into it.
+func brokenSyntax(t *tape.Tape, noBackquote bool) string {
+	src := richSyntax
+	if noBackquote {
+		var keep []string
+		for _, l := range strings.Split(src, "\n") {
+			if !strings.Contains(l, "`") {
+				keep = append(keep, l)
+			}
+		}
+		src = strings.Join(keep, "\n")
+	}
+	pos := 1 + t.Intn(len(src)-1)
+	if t.Chance(1, 2) {
+		return src[:pos]
+	}
+	strays := []string{" 1 2 ", ")", "}", "\"", "#{", " a b ", "|", "\n|@", "'", "`"}
+	if noBackquote {
+		strays = strays[:len(strays)-1]
+	}
+	return src[:pos] + strays[t.Intn(len(strays))] + src[pos:]
+}
+
+// handledSyntax is a program that passes although it parses a broken text itself.
+func handledSyntax(t *tape.Tape) string {
+	b := brokenSyntax(t, true)
+	switch t.Intn(3) {
+	case 0:
+		return "hr := `" + b + "`.try.eval\nhr.err?.B.p\n"
+	case 1:
+		return "hr := `" + b + "`.try.evalEnv\nhr.err?.B.p\n"
+	default:
+		return "hq := 1\n[`" + b + "`]@{|s| s.try.eval.err?.B}.p\n"
+	}
+}
+
 type probeProg struct {
 	kind  string
 	src   string
@@ -359,6 +406,8 @@ var probes = []probeProg{
 	{"evalenv", "\"a := 1\".evalEnv.p\n\"px\".eval\n", ""},
 	{"evalenv-keys", "\"zz_probe_key := 1; yy_probe_key := 2\".evalEnv@{|k, v| \"#{k}=#{v} #{k.proto == Str}\"}.p\n", ""},
 	{"builtin-names-in-use", "[Int.keys.len > 0, [1].len, \"ab\".len, assertEq(1, 1), Kernel.keys.len > 0, true, nil, Err.new(\"e\").type == Err].p\nassert(false)\n", ""},
+	{"rich-syntax", richSyntax, ""},
+	{"rich-syntax", richSyntax, ""},
 	{"syntax-error", "ok := 1\nok +* 2\n", ""},
 	{"syntax-error2", "{|x| x\n", ""},
 	{"same-literal-func", "step := 10\ninc := {|x, by: step| x + by}\ninc(1).p\n\ndescribe := {|o| o.name.uc}\ndescribe({title: \"b\"})\n", ""},
@@ -892,7 +941,11 @@ func (c *c19Check) runTestHistory(seed, run uint64, t *tape.Tape, s *C19Stats) [
 			"1.try.{|x| _}.A\nhx1 := 5\n",
 			"Int.bear({twice: m{self * 2}})\nq := 7\n",
 			"S := {|i| i}\nS1 := 4\n\"hist\".p\n",
-		}[t.Intn(6)]
+			"", "",
+		}[t.Intn(8)]
+		if src == "" {
+			src = handledSyntax(t)
+		}
 		os.WriteFile(filepath.Join(dirH, fmt.Sprintf("a%d_hist_test.pangaea", i+1)), []byte(src), 0o644)
 		hist = append(hist, src)
 		s.Steps++
